@@ -10,6 +10,16 @@ CHECKS = {
    "Content alphabet {a,b,A,<,&,U+00E9}; sets {<},{<,&},{}; patterns a,ab,aba,<a,U+00E9,a<,AB in both comparison modes; longer texts are covered only by the data-independence of the code. State key = partition + inline/heap class.",
    "DESIGN.md §3 C13", "E5 ops"),
 }
+CHECKS["C11"] = ("exploration",
+   "stateless exhaustive DFS over operation sequences on the real Tendril vs Vec<u8> model",
+   "Every sequence of up to 4 (quick) / 5 (thorough) operations from a ~90-symbol alphabet (make, push bytes/char/tendril, clone, subtendril, pop front/back, char pops, clear, reserve, SendTendril round trip, in-place write, drop) over a pool of 3 tendrils is executed from scratch on the real Tendril next to a Vec<u8> model, for UTF8/Bytes (NonAtomic and Atomic) and WTF8/ASCII/Latin1; plus all suffixes of length 3/4 from 9 representation witnesses (owned+capacity, shared pair, shared+offset, adjacent shared slices, ...). After each sequence every slot must hold the model's bytes, be valid for its format, and checked ops must fail iff the model says so.",
+   "No state merging (capacity is invisible). Literal lengths 1/8/9/12/17 straddle the 8-byte inline limit; longer buffers and other literal contents are covered only by data-independence. Model validity rules: std::str::from_utf8 and a hand-written generalized-UTF-8 validator for WTF-8.",
+   "DESIGN.md §3 C11", "E5 ops")
+CHECKS["C12"] = ("fault_enumeration",
+   "C11 histories under a tracking allocator + loom exhaustive interleavings of refcount ops (+ valgrind in thorough)",
+   "Three monitors over exhaustively enumerated executions: (1) every C11 history (depth 3 quick / 4 thorough, witnesses depth 3) under a tracking global allocator with red zones, poisoning and quarantine of freed blocks and a per-execution leak check; (2) loom explores all interleavings of the refcount atomics for every assignment of 7 actions to 2, 3 (and 4 in thorough) handles of one shared buffer, with an allocator that demands exactly one free and a loom UnsafeCell shadow that makes the free a write and every harness read a read, so loom's causality checker also validates the Release/Acquire protocol; (3) thorough: valgrind memcheck over the depth-3 histories for out-of-bounds/after-free reads.",
+   "loom sees only the refcount atomics; buffer bytes are represented by the shadow cell. Quick tier bounds 3-handle scenarios to 3 preemptions (unbounded in thorough; 4 handles bound 2). SendTendril only sequentially.",
+   "DESIGN.md §3 C12", "E5 ops + E6 loomjob")
 PENDING = {}
 def main():
     checks = []
